@@ -42,7 +42,8 @@ def gen_cases(rng, n):
                           back=float(rng.normal(0, 5)), xsl=float(rng.normal(0, 0.5)) if (k < 6 or rng.random() < 0.8) else 0.0,
                           ysl=float(rng.normal(0, 0.5)) if (k < 6 or rng.random() < 0.8) else 0.0, guess=float(rng.normal(0, 3)) if k % 4 else 0.0,
                           mask=str(rng.choice(["none", "random", "half"])),
-                          err=float(np.exp(rng.uniform(-3, 1))), psf_sum=float(rng.choice([1.0, 0.7, 1.6])), seed=int(rng.integers(0, 2 ** 31))))
+                          # any flux unit: every third round the image is in units where the sky uncertainty is ~1e-8
+                          err=float(np.exp(rng.uniform(-3, 1))) * (1e-7 if (k // 3) % 3 == 2 else 1.0), psf_sum=float(rng.choice([1.0, 0.7, 1.6])), seed=int(rng.integers(0, 2 ** 31))))
     return cases
 
 
@@ -91,6 +92,20 @@ def real_eval(payload):
             skyv = {k: float(tr[k + sky_sfx]["value"]) for k in ("sky_back", "sky_x_sl", "sky_y_sl") if k + sky_sfx in tr}
             X, Y = f.renderer.X, f.renderer.Y
             standalone = np.asarray(U.PR.render_tilted_plane_sky(X, Y, skyv.get("sky_back", 0.0), skyv.get("sky_x_sl", 0.0), skyv.get("sky_y_sl", 0.0)), dtype=np.float64)
+            # the stand-alone function on the caller's own numpy grids (float and integer), twice: same plane, grids untouched
+            sv = (skyv.get("sky_back", 0.0), skyv.get("sky_x_sl", 0.0), skyv.get("sky_y_sl", 0.0))
+            Xn, Yn = np.array(X, dtype=np.float64), np.array(Y, dtype=np.float64)
+            Xc, Yc = Xn.copy(), Yn.copy()
+            s1 = np.asarray(U.PR.render_tilted_plane_sky(Xn, Yn, *sv), dtype=np.float64)
+            s2 = np.asarray(U.PR.render_tilted_plane_sky(Xn, Yn, *sv), dtype=np.float64)
+            try:
+                s3 = np.asarray(U.PR.render_tilted_plane_sky(np.array(X, dtype=np.int64), np.array(Y, dtype=np.int64), *sv), dtype=np.float64)
+                int_err = None
+            except Exception as e:
+                s3, int_err = s1, f"{type(e).__name__}: {str(e)[:120]}"
+            repeat = dict(second_call=float(np.abs(s2 - s1).max()), vs_model_grids=float(np.abs(s1 - standalone).max()), int_grids=float(np.abs(s3 - s1).max()),
+                          grids_changed=bool(not (np.array_equal(Xn, Xc) and np.array_equal(Yn, Yc))), int_error=int_err,
+                          scale=float(np.abs(standalone).max()))
             # a second source configuration: the sky must not change
             lat2 = dict(lat)
             for k in lat2:
@@ -101,7 +116,7 @@ def real_eval(payload):
             bare2 = f.renderer.render_source(params2, "sersic", suffix=sfx) if c["kind"] == "single" else f.renderer.render_for_model(params2, cat["type"], sfx)
             diff2 = np.asarray(tr2["model" + sfx]["value"], dtype=np.float64) - np.asarray(bare2, dtype=np.float64)
             out.append(dict(diff=img - np.asarray(bare, dtype=np.float64), diff2=diff2, skyv=skyv, hyper=hyper, standalone=standalone,
-                            scale=float(np.abs(img).max()), sky_site_names=sorted(k for k in tr if k.startswith("sky") and not k.endswith("_base")), x64=x64))
+                            scale=float(np.abs(img).max()), sky_site_names=sorted(k for k in tr if k.startswith("sky") and not k.endswith("_base")), x64=x64, repeat=repeat))
         except Exception as e:
             import traceback
             out.append(dict(error=f"{type(e).__name__}: {e}", tb=traceback.format_exc()[-600:]))
@@ -173,6 +188,13 @@ def evaluate(ctx, cases):
         d2 = float(np.abs(b["diff2"] - exp).max())
         if not d2 <= tol:
             viol.append(v("source-dependence", f"the sky term changed by {d2:.3e} when only source parameters changed"))
+        rp = b.get("repeat")
+        if rp:
+            rt = 2e-6 * max(rp["scale"], 1e-30)
+            if rp["grids_changed"] or not rp["second_call"] <= rt or not rp["vs_model_grids"] <= rt or rp["int_error"] or not rp["int_grids"] <= rt:
+                viol.append(v("standalone-repeat", f"render_tilted_plane_sky on the caller's numpy grids: second call differs by {rp['second_call']:.3e}, "
+                                                   f"float grids vs the renderer's by {rp['vs_model_grids']:.3e}, integer grids by {rp['int_grids']:.3e} "
+                                                   f"(error: {rp['int_error']}), grids modified in place: {rp['grids_changed']}"))
         want = dict(none=[], flat=["sky_back"], **{"tilted-plane": ["sky_back", "sky_x_sl", "sky_y_sl"]})[c["sky"]]
         if sorted(x[: len(x) - len(sky_sfx)] if sky_sfx else x for x in a["sky_site_names"]) != sorted(want):
             viol.append(v("sky-sites", f"sky sites {a['sky_site_names']}, expected {want} (+suffix)"))
